@@ -166,6 +166,11 @@ func (s *SMS) HijackAuth(w http.ResponseWriter, r *http.Request, handled bool) (
 	}
 
 	authboss.PutSession(w, SessionSMSPendingPID, user.GetPID())
+	// A code still in the session was sent for an earlier attempt, possibly
+	// for a different account, and must not complete this login: drop it
+	// before asking for a new one, which is not issued when the resend is
+	// rate-limited or fails early.
+	authboss.DelSession(w, SessionSMSSecret)
 	err := s.SendCodeToUser(w, r, user.GetPID(), number)
 	if err != nil && err != errSMSRateLimit {
 		return false, err
@@ -271,6 +276,8 @@ func (s *SMS) PostSetup(w http.ResponseWriter, r *http.Request) error {
 	}
 
 	authboss.PutSession(w, SessionSMSNumber, number)
+	// A code still in the session was not sent to this number.
+	authboss.DelSession(w, SessionSMSSecret)
 	if err = s.SendCodeToUser(w, r, user.GetPID(), number); err != nil {
 		return err
 	}
